@@ -63,19 +63,27 @@ def fresh_name(prefix):
     return '%s!%d' % (prefix, CTX.fresh)
 
 
+def timed_check(s, timeout_ms):
+    """s.check() under z3's own timeout (soft); the job runner enforces the hard wall-clock limit per job"""
+    if timeout_ms:
+        s.set('timeout', int(timeout_ms))
+    try:
+        return str(s.check())
+    except z3.Z3Exception:
+        return 'unknown'
+
+
 def check(fs, timeout_ms=None):
     """One-shot satisfiability of pc + fs. Returns 'sat' / 'unsat' / 'unknown'."""
     s = z3.Solver()
-    if timeout_ms:
-        s.set('timeout', int(timeout_ms))
     if CTX is not None:
         s.add(*CTX.pc)
     s.add(*fs)
     t = time.time()
-    r = s.check()
+    r = timed_check(s, timeout_ms)
     STATS['solver_s'] += time.time() - t
     STATS['queries'] += 1
-    return str(r)
+    return r
 
 
 def decide(term):
@@ -306,7 +314,7 @@ class SInt(Sym):
     def _arith(self, o, f, rev=False, domf=None):
         l = self._lift(o)
         if l is None:
-            if isinstance(o, (float, _np.floating, XR, SFP)):
+            if isinstance(o, (float, _np.floating, XR, SFP, EFP)):
                 a = self._f()
                 return f(o, a) if rev else f(a, o)
             return NotImplemented
@@ -324,6 +332,8 @@ class SInt(Sym):
     def __rsub__(self, o): return self._arith(o, operator.sub, True, lambda d, c, r: (c - d[1], c - d[0]))
 
     def __mul__(self, o):
+        if MODE['float'] == 'env' and isinstance(o, (float, _np.floating, EFP)):
+            return self._f() * o
         if isinstance(o, (XR, float, _np.floating, SFP)) or (isinstance(o, SInt) and self.dom is not None and _int_const(o) is None):
             return small_int_mul(self, o)
         return self._arith(o, operator.mul)
@@ -366,7 +376,7 @@ class SInt(Sym):
     def _cmp(self, o, f, fl):
         l = self._lift(o)
         if l is None:
-            if isinstance(o, (float, _np.floating, XR, SFP)):
+            if isinstance(o, (float, _np.floating, XR, SFP, EFP)):
                 return fl(self._f(), o)
             return NotImplemented
         return SBool(f(self.t, l))
@@ -445,6 +455,19 @@ class SBV(Sym):
     def __neg__(self): return SBV(-self.t)
     def __abs__(self): return SBV(z3.If(self.t >= 0, self.t, -self.t))
 
+    def __mod__(self, o):
+        c = _int_const(o)
+        if c is not None and c > 0:
+            return SBV((self.t % z3.BitVecVal(c, 64)))       # sign follows the (positive) divisor: floor mod
+        return NotImplemented
+
+    def __floordiv__(self, o):
+        c = _int_const(o)
+        if c is not None and c > 0:
+            cv = z3.BitVecVal(c, 64)
+            return SBV((self.t - self.t % cv) / cv)         # exact signed division after removing the floor remainder
+        return NotImplemented
+
     def _cmp(self, o, f, fl):
         l = self._lift(o)
         if l is None:
@@ -510,6 +533,8 @@ def int_to_float(x):
         return x._f()
     if MODE['float'] == 'xr':
         return XR(z3.ToReal(x.t), dom=x.dom, it=x.t)
+    if MODE['float'] == 'env':
+        return EFP(z3.ToReal(x.t), True)        # exact below 2^53 (range assumption of the harness)
     raise NotModelled('SInt -> FP conversion (use SBV in FP harnesses)')
 
 
@@ -955,6 +980,165 @@ def xlgamma(a):
     return XR(f(a.v), a.nan, z3.If(a.inf != 0, 1, 0))
 
 
+
+# ---- rounding-envelope floats (sound over-approximation of round-to-nearest) --------------------
+
+ENV = {'kmin': -40, 'kmax': 62}
+
+
+def _half_ulp(e):
+    """piecewise-constant half ulp of a double whose exact (pre-rounding) value is e, per binade"""
+    a = z3.If(e >= 0, e, -e)
+    kmin, kmax = ENV['kmin'], ENV['kmax']
+    b = z3.RealVal(2) ** (kmin - 53)                  # below 2^kmin: over-approximated by the bound of binade kmin
+    for k in range(kmin, kmax + 1):
+        b = z3.If(a >= z3.RealVal(2) ** k, z3.RealVal(2) ** (k - 52 - 1), b)
+    b = z3.If(a >= z3.RealVal(2) ** (kmax + 1), a, b)       # beyond the modelled binades: no information (sound)
+    return b
+
+
+def _op_site():
+    """(file, line, bytecode offset) of the innermost frame outside the engine: identifies the operation"""
+    import sys
+    f = sys._getframe(2)
+    here = __file__.rsplit('/', 1)[0]
+    while f is not None and f.f_code.co_filename.startswith(here):
+        f = f.f_back
+    if f is None:
+        return None
+    return (f.f_code.co_filename, f.f_lineno, f.f_lasti)
+
+
+class EFP(Sym):
+    """float64 abstracted as a real number; every rounded operation returns a fresh real within half an ulp
+    (per binade) of the exact result. `unsat` under this abstraction is a proof for the IEEE semantics in the
+    normal range [2^kmin, 2^(kmax+1)); `sat` is only a candidate and must survive replay."""
+    __slots__ = ('v', 'exact')
+    dtype = DT64
+
+    def __init__(self, v, exact=False):
+        self.v = v
+        self.exact = exact          # value known to be an integer below 2^53 or otherwise exactly representable
+
+    @staticmethod
+    def rounded(e):
+        e = z3.simplify(e)
+        if _is_numeral(e):
+            # constant folding: round the rational to the nearest double exactly
+            fr = Fraction(e.numerator_as_long(), e.denominator_as_long()) if z3.is_rational_value(e) else None
+            if fr is not None:
+                return EFP(_rv(float(fr)))
+        r = z3.Real(fresh_name('fl'))
+        d = r - e
+        h = _half_ulp(e)
+        cons = [d <= h, -d <= h, z3.Implies(e == 0, r == 0), z3.Implies(e > 0, r > 0), z3.Implies(e < 0, r < 0)]
+        # rounding is one monotone function: e1 <= e2 => fl(e1) <= fl(e2), against every earlier rounded operation
+        # ... instantiated between executions of the same operation site of the code under test
+        site = _op_site()
+        ops = CTX.notes.setdefault('_efp_ops', {}).setdefault(site, [])
+        if ENV.get('monotone', True):
+            for (e0, r0) in ops[-4:]:
+                cons.append(z3.Implies(e0 <= e, r0 <= r))
+                cons.append(z3.Implies(e <= e0, r <= r0))
+        ops.append((e, r))
+        CTX.pc.append(z3.And(cons))
+        return EFP(r)
+
+    def _lift(self, o):
+        if isinstance(o, EFP):
+            return o.v
+        if isinstance(o, SInt):
+            return z3.ToReal(o.t)
+        if isinstance(o, SBool):
+            return z3.If(o.t, z3.RealVal(1), z3.RealVal(0))
+        if isinstance(o, (bool, int, _np.integer, _np.bool_)):
+            return z3.RealVal(int(o))
+        if isinstance(o, (float, _np.floating)):
+            return _rv(float(o))
+        return None
+
+    def _arith(self, o, f, rev=False):
+        l = self._lift(o)
+        if l is None:
+            return NotImplemented
+        return EFP.rounded(f(l, self.v) if rev else f(self.v, l))
+
+    def __add__(self, o): return self._arith(o, operator.add)
+    def __radd__(self, o): return self._arith(o, operator.add, True)
+    def __sub__(self, o): return self._arith(o, operator.sub)
+    def __rsub__(self, o): return self._arith(o, operator.sub, True)
+    def __mul__(self, o): return self._arith(o, operator.mul)
+    def __rmul__(self, o): return self._arith(o, operator.mul, True)
+    def __truediv__(self, o): return self._arith(o, operator.truediv)
+    def __rtruediv__(self, o): return self._arith(o, operator.truediv, True)
+    def __neg__(self): return EFP(-self.v, self.exact)
+    def __pos__(self): return self
+    def __abs__(self): return EFP(z3.If(self.v >= 0, self.v, -self.v), self.exact)
+
+    def floor(self):
+        return EFP(z3.ToReal(z3.ToInt(self.v)), True)
+
+    def trunc(self):
+        return EFP(z3.ToReal(z3.If(self.v >= 0, z3.ToInt(self.v), -z3.ToInt(-self.v))), True)
+
+    def rint(self):
+        """round half to even (exact operation on doubles)"""
+        fl = z3.ToInt(self.v)
+        fr = self.v - z3.ToReal(fl)
+        up = z3.Or(fr > z3.RealVal(1) / 2, z3.And(fr == z3.RealVal(1) / 2, fl % 2 != 0))
+        return EFP(z3.ToReal(z3.If(up, fl + 1, fl)), True)
+
+    def __floordiv__(self, o):
+        if isinstance(o, (int, float)) and o == 1:
+            return self.floor()
+        return NotImplemented
+
+    def __mod__(self, o):
+        if isinstance(o, (int, float)) and o == 1:
+            return EFP(self.v - z3.ToReal(z3.ToInt(self.v)))     # fmod(x, 1) is exact in IEEE arithmetic
+        return NotImplemented
+
+    def _cmp(self, o, f):
+        l = self._lift(o)
+        if l is None:
+            return NotImplemented
+        return SBool(f(self.v, l))
+
+    def __lt__(self, o): return self._cmp(o, operator.lt)
+    def __le__(self, o): return self._cmp(o, operator.le)
+    def __gt__(self, o): return self._cmp(o, operator.gt)
+    def __ge__(self, o): return self._cmp(o, operator.ge)
+
+    def __eq__(self, o):
+        r = self._cmp(o, operator.eq)
+        return False if r is NotImplemented else r
+
+    def __ne__(self, o):
+        r = self._cmp(o, operator.ne)
+        return True if r is NotImplemented else r
+    __hash__ = None
+
+    def __bool__(self):
+        return decide(self.v != 0)
+
+    def __round__(self, n=None):
+        if n is None:
+            return SInt(z3.ToInt(self.rint().v))
+        raise NotModelled('round(x, n)')
+
+    def isnan(self): return False
+    def isinf(self): return False
+
+    def astype(self, dt):
+        return cast(self, _np.dtype(dt))
+
+    def item(self):
+        return self
+
+    def __repr__(self):
+        return 'EFP(%s)' % self.v
+
+
 # ---- generic helpers ---------------------------------------------------------------------------
 
 def kind(x):
@@ -963,6 +1147,7 @@ def kind(x):
     if isinstance(x, SBV): return 'bv'
     if isinstance(x, SFP): return 'fp'
     if isinstance(x, XR): return 'xr'
+    if isinstance(x, EFP): return 'efp'
     if isinstance(x, (bool, _np.bool_)): return 'cbool'
     if isinstance(x, (int, _np.integer)): return 'cint'
     if isinstance(x, (float, _np.floating)): return 'cfloat'
@@ -1003,6 +1188,12 @@ def sel(c, a, b):
                 it = z3.If(c, a.it, b.it)
             return XR(z3.If(c, a.v, b.v), dom=dom, it=it)
         return XR(z3.If(c, a.v, b.v), z3.If(c, a.nan, b.nan), z3.If(c, a.inf, b.inf))
+    if 'efp' in ks or (MODE['float'] == 'env' and ks & {'cfloat'}):
+        la = EFP(z3.RealVal(0))._lift(a)
+        lb = EFP(z3.RealVal(0))._lift(b)
+        if la is None or lb is None:
+            raise NotModelled('sel on %s/%s' % (ka, kb))
+        return EFP(z3.If(c, la, lb))
     if 'fp' in ks or 'cfloat' in ks:
         fa = a if isinstance(a, SFP) else None
         fb = b if isinstance(b, SFP) else None
@@ -1017,7 +1208,7 @@ def sel(c, a, b):
             fb = to_fp(b, ref.dtype)
         co = fa._co(fb)
         return SFP(z3.If(c, co[0], co[1]), co[2])
-    if ks <= {'int', 'cint', 'cbool', 'bool'} and ('int' in ks or MODE['float'] == 'xr'):
+    if ks <= {'int', 'cint', 'cbool', 'bool'} and ('int' in ks or MODE['float'] != 'fp'):
         la = SInt(0)._lift(a)
         lb = SInt(0)._lift(b)
         dom = None
@@ -1048,6 +1239,13 @@ def to_fp(x, dt=DT64):
 def cast(x, dt):
     """numpy astype on a symbolic scalar"""
     k = kind(x)
+    if k == 'efp':
+        if dt.kind == 'f':
+            return x
+        if dt.kind in 'iu':
+            return SInt(z3.If(x.v >= 0, z3.ToInt(x.v), -z3.ToInt(-x.v)))
+        if dt.kind == 'b':
+            return x != 0
     if dt.kind == 'f':
         if k == 'fp':
             if x.dtype == dt:
@@ -1145,6 +1343,7 @@ def value_from_model(m, x):
     if isinstance(x, SBool): return bool_from_model(m, x.t)
     if isinstance(x, (SInt, SBV)): return int_from_model(m, x.t)
     if isinstance(x, SFP): return fp_from_model(m, x.t)
+    if isinstance(x, EFP): return real_from_model(m, x.v)
     if isinstance(x, XR):
         if bool_from_model(m, x.nan): return math.nan
         i = int_from_model(m, x.inf)
